@@ -237,7 +237,7 @@ structure SInv (x : W) : Prop where
   text_eq : x.kind = .text → x.text = x.sess.flatMap decoded
   suffix : ∃ pre, x.recv = pre ++ x.sess
   stream : x.kind ≠ .path → x.sess = x.recv
-  closedClean : x.kind = .path → x.isOpen = false → x.dirty = false
+  closedClean : x.isOpen = false → x.dirty = false
   notClosed : x.kind ≠ .path → x.closed = false
   custom : x.kind = .custom → x.dirty = false ∧ x.isOpen = false
   ttyClean : x.tty = true → x.kind ≠ .path → x.dirty = false
